@@ -1,3 +1,382 @@
-//! C05 — not built yet.
-use crate::run::Run;
-pub fn run(_run: &Run) { eprintln!("C05: check not built yet"); std::process::exit(2); }
+//! C05 — stream filters decode what standard encoders produce; corrupted data never panics.
+use crate::doc::CFGS;
+use crate::mkpdf::{self, Obj};
+use crate::panicmon::guard;
+use crate::par::{par_chunks, par_for};
+use crate::refimpl::codec::{self, Geometry};
+use crate::rng::{fnv, Rng};
+use crate::run::{hex, show, Run};
+use crate::tape::{shrink, Src};
+use crate::with_file;
+use pdf::enc::{decode, LZWFlateParams, PredictorType, StreamFilter};
+use pdf::object::{PlainRef, Ref, Resolve, Stream};
+use serde_json::json;
+
+#[derive(Clone, Debug)]
+struct Layer { kind: u8, early: i32, predictor: i32, geo: Geometry, explicit_params: bool }
+const KINDS: [&str; 5] = ["AHx", "A85", "RL", "LZW", "Flate"];
+
+struct Case { data: Vec<u8>, layers: Vec<Layer>, encoded: Vec<u8>, route: u8, labels: String }
+
+fn gen_data(s: &mut Src, max: usize) -> Vec<u8> {
+    let n = match s.draw(4) { 0 => s.draw(16) as usize, 1 => s.draw(max as u32 + 1) as usize, _ => s.draw(200) as usize };
+    match s.draw(4) {
+        0 => (0..n).map(|_| s.byte()).collect(),
+        1 => { let b = s.byte(); vec![b; n] }
+        2 => { let k = 1 + s.draw(6) as usize; let pat: Vec<u8> = (0..k).map(|_| s.byte()).collect(); (0..n).map(|i| pat[i % k]).collect() }
+        _ => (0..n).map(|i| if s.draw(8) == 0 { s.byte() } else { (i / 5) as u8 }).collect(),
+    }
+}
+
+fn gen_case(s: &mut Src, max: usize) -> Case {
+    let nl = 1 + s.pick_w(5, 2) as usize; // 1..3 layers, 1 most likely
+    let mut layers = Vec::new();
+    for _ in 0..nl {
+        let kind = s.draw(5) as u8;
+        s.label(KINDS[kind as usize]);
+        let early = if kind == 3 { if s.alt(1, &["early1", "lzw_early0"]) == 1 { 0 } else { 1 } } else { 1 };
+        layers.push(Layer { kind, early, predictor: 1, geo: Geometry { colors: 1, bpc: 8, columns: 1 }, explicit_params: false });
+    }
+    if nl > 1 { s.label(if nl == 2 { "chain2" } else { "chain3" }); }
+    // predictor only on the last (innermost) layer with free geometry; data is a whole number of rows
+    let last = nl - 1;
+    let mut data = gen_data(s, max);
+    if layers[last].kind >= 3 {
+        let p = s.alt(3, &["nopred", "pred_png", "pred_tiff2", "pred_1_explicit"]);
+        if p == 1 || p == 2 {
+            let colors = 1 + s.pick_w(2, 3);
+            let bpc = if s.alt(3, &["bpc8", "bpc_not8"]) == 0 { 8 } else { *s.pick(&[1u32, 2, 4, 16]) };
+            if colors > 1 { s.label("colors>1"); }
+            let columns = 1 + s.draw(70);
+            let geo = Geometry { colors, bpc, columns };
+            let rb = geo.row_bytes();
+            let rows = (data.len() / rb).max(1).min(40);
+            while data.len() < rows * rb { let b = s.byte(); data.push(b); }
+            data.truncate(rows * rb);
+            if rows > 1 { s.label("rows>1"); }
+            if p == 2 && bpc < 8 {
+                // bits after the last sample of a row are padding: keep them zero so that "original bytes" is well defined
+                let used = (geo.colors * geo.bpc * geo.columns) as usize;
+                let pad = rb * 8 - used;
+                if pad > 0 { for r in 0..rows { data[r * rb + rb - 1] &= 0xffu8 << pad; } }
+            }
+            layers[last].predictor = if p == 2 { 2 } else { 10 + s.draw(6) as i32 };
+            if p == 1 && layers[last].predictor == 10 { s.label("pred_eq_10"); }
+            layers[last].geo = geo;
+            layers[last].explicit_params = true;
+        } else if p == 3 {
+            layers[last].explicit_params = true;
+        }
+    }
+    // encode from the innermost layer outwards
+    let mut cur = data.clone();
+    for l in layers.iter().rev() {
+        if l.predictor == 2 { cur = codec::tiff_predict(&cur, &l.geo); }
+        else if l.predictor >= 10 {
+            let mode = s.alt(2, &["png_rowtag_same", "png_rowtag_mixed"]);
+            let fixed = s.draw(5) as u8;
+            let mut tags: Vec<u8> = Vec::new();
+            let rows = cur.len() / l.geo.row_bytes();
+            for _ in 0..rows { tags.push(if mode == 0 { fixed } else { s.draw(5) as u8 }); }
+            for t in &tags { s.label(["png_none", "png_sub", "png_up", "png_avg", "png_paeth"][*t as usize]); }
+            cur = codec::png_predict(&cur, &l.geo, |r| tags[r]);
+        }
+        cur = match l.kind {
+            0 => codec::hex_encode(&cur, s),
+            1 => codec::a85_encode(&cur, s),
+            2 => codec::rl_encode(&cur, s),
+            3 => codec::lzw_encode(&cur, l.early as u32, s),
+            _ => codec::flate_encode(&cur, s),
+        };
+    }
+    let route = s.alt(2, &["route_direct", "route_stream", "route_file"]) as u8;
+    Case { data, layers, encoded: cur, route, labels: String::new() }
+}
+
+fn filter_of(l: &Layer) -> StreamFilter {
+    let p = LZWFlateParams { predictor: l.predictor, n_components: l.geo.colors as i32, bits_per_component: l.geo.bpc as i32, columns: l.geo.columns as i32, early_change: l.early };
+    match l.kind { 0 => StreamFilter::ASCIIHexDecode, 1 => StreamFilter::ASCII85Decode, 2 => StreamFilter::RunLengthDecode, 3 => StreamFilter::LZWDecode(p), _ => StreamFilter::FlateDecode(p) }
+}
+fn filter_name(k: u8) -> &'static str { ["ASCIIHexDecode", "ASCII85Decode", "RunLengthDecode", "LZWDecode", "FlateDecode"][k as usize] }
+
+fn parms_obj(l: &Layer) -> Obj {
+    let mut d: Vec<(&str, Obj)> = Vec::new();
+    if l.predictor != 1 || l.explicit_params {
+        d.push(("Predictor", Obj::Int(l.predictor as i64)));
+        if l.predictor != 1 {
+            d.push(("Colors", Obj::Int(l.geo.colors as i64)));
+            d.push(("BitsPerComponent", Obj::Int(l.geo.bpc as i64)));
+            d.push(("Columns", Obj::Int(l.geo.columns as i64)));
+        }
+    }
+    if l.kind == 3 && l.early == 0 { d.push(("EarlyChange", Obj::Int(0))); }
+    if d.is_empty() { Obj::Null } else { mkpdf::dict(d) }
+}
+
+/// run the case on the real library; Ok(decoded) | Err(class, detail)
+fn execute(c: &Case) -> Result<Vec<u8>, (String, String)> {
+    match c.route {
+        0 => {
+            let mut cur = c.encoded.clone();
+            for l in &c.layers {
+                let f = filter_of(l);
+                match guard(|| decode(&cur, &f)) {
+                    Err(p) => return Err((p.signature(), p.describe())),
+                    Ok(Err(e)) => return Err(("decode-error".into(), format!("{} at layer {}", e, KINDS[l.kind as usize]))),
+                    Ok(Ok(v)) => cur = v,
+                }
+            }
+            Ok(cur)
+        }
+        1 => {
+            let st = Stream::from_compressed((), c.encoded.clone(), c.layers.iter().map(filter_of).collect());
+            match guard(|| st.data(&pdf::object::NoResolve)) {
+                Err(p) => Err((p.signature(), p.describe())),
+                Ok(Err(e)) => Err(("decode-error".into(), format!("{}", e))),
+                Ok(Ok(v)) => Ok(v.to_vec()),
+            }
+        }
+        _ => {
+            let mut objs = mkpdf::skeleton(1);
+            let filt = if c.layers.len() == 1 { mkpdf::name(filter_name(c.layers[0].kind)) } else { Obj::Arr(c.layers.iter().map(|l| mkpdf::name(filter_name(l.kind))).collect()) };
+            let parms: Vec<Obj> = c.layers.iter().map(parms_obj).collect();
+            let mut d = vec![("Filter", filt)];
+            if parms.iter().any(|p| *p != Obj::Null) {
+                d.push(("DecodeParms", if c.layers.len() == 1 { parms[0].clone() } else { Obj::Arr(parms) }));
+            }
+            objs.push((4, mkpdf::stream(d, &c.encoded)));
+            let bytes = mkpdf::simple_doc(&objs, 1, vec![]);
+            let r = guard(|| with_file!(bytes.clone(), CFGS[0], b"", |f| {
+                let f = f.map_err(|e| format!("load: {}", e))?;
+                let res = f.resolver();
+                let st = res.get::<Stream<()>>(Ref::new(PlainRef { id: 4, gen: 0 })).map_err(|e| format!("get stream: {}", e))?;
+                (**st.data()).data(&res).map(|d| d.to_vec()).map_err(|e| format!("{}", e))
+            }));
+            match r {
+                Err(p) => Err((p.signature(), p.describe())),
+                Ok(Err(e)) => Err(("decode-error".into(), e)),
+                Ok(Ok(v)) => Ok(v),
+            }
+        }
+    }
+}
+
+fn outcome(c: &Case) -> Option<(String, String)> {
+    match execute(c) {
+        Ok(d) if d == c.data => None,
+        Ok(d) => {
+            let cls = if d.len() != c.data.len() { "wrong-length" } else { "wrong-bytes" };
+            Some((cls.into(), format!("decoded {} bytes, expected {}", d.len(), c.data.len())))
+        }
+        Err(e) => Some(e),
+    }
+}
+
+fn self_check(c: &Case) -> Result<(), String> {
+    // my own decoders must invert my own encoders for the plain chain (predictor-free layers), else harness error
+    let mut cur = c.encoded.clone();
+    for l in &c.layers {
+        cur = match l.kind {
+            0 => codec::hex_decode(&cur)?, 1 => codec::a85_decode(&cur)?, 2 => codec::rl_decode(&cur)?,
+            3 => codec::lzw_decode(&cur, l.early as u32)?,
+            _ => codec::zlib_decode(&cur).or_else(|_| codec::raw_inflate(&cur))?,
+        };
+    }
+    // undo predictor of the last layer only via comparing with re-prediction is skipped; compare lengths
+    let last = c.layers.last().unwrap();
+    if last.predictor == 1 && cur != c.data { return Err("reference decoder does not invert reference encoder".into()); }
+    Ok(())
+}
+
+fn random_part(run: &Run) {
+    let n = run.n(150_000, 3_000_000);
+    let max = if run.quick() { 4096 } else { 65536 };
+    par_for(n, |i| {
+        let mut s = Src::fresh(Rng::derive(run.seed, 5, i));
+        let cmax = if i % 16 == 0 { max } else { 512 };
+        let c = gen_case(&mut s, cmax);
+        run.eval();
+        if let Err(e) = self_check(&c) { run.inconclusive(format!("case {}: {}", i, e)); return; }
+        let labels = s.label_set();
+        run.nontrivial(fnv(&c.encoded) ^ fnv(labels.as_bytes()));
+        for l in &c.layers { run.count(&format!("layer:{}{}", KINDS[l.kind as usize], if l.predictor >= 10 { "+png" } else if l.predictor == 2 { "+tiff" } else { "" })); }
+        run.count(&format!("route:{}", c.route));
+        if i < 6 { run.sample(json!({"labels": labels, "data_len": c.data.len(), "encoded": show(&c.encoded[..c.encoded.len().min(80)])})); }
+        if let Some((cls, _)) = outcome(&c) {
+            // shrink on the real code, same outcome class
+            let tape = s.tape.clone();
+            let small = shrink(&tape, |t| {
+                let mut s2 = Src::replay(t);
+                let c2 = gen_case(&mut s2, cmax);
+                if self_check(&c2).is_err() { return false; }
+                matches!(outcome(&c2), Some((k, _)) if k == cls)
+            }, 600);
+            let mut s3 = Src::replay(&small);
+            let c3 = gen_case(&mut s3, cmax);
+            let (cls3, detail) = outcome(&c3).unwrap_or((cls.clone(), "(shrunk case no longer fails)".into()));
+            let sig = format!("C05|{}|{}", s3.label_set(), cls3);
+            run.violation(&sig, &detail, json!({"tape": small, "labels": s3.label_set(), "data_hex": hex(&c3.data[..c3.data.len().min(200)]),
+                "encoded_hex": hex(&c3.encoded[..c3.encoded.len().min(400)]), "layers": format!("{:?}", c3.layers), "route": c3.route}));
+        }
+    });
+}
+
+fn corruption_part(run: &Run) {
+    let n = run.n(100_000, 2_000_000);
+    par_for(n, |i| {
+        let mut s = Src::fresh(Rng::derive(run.seed, 50, i));
+        let mut c = gen_case(&mut s, 300);
+        c.route = 0;
+        let mut r = Rng::derive(run.seed, 51, i);
+        // mutate the outermost encoded bytes
+        let mut e = c.encoded.clone();
+        match r.below(4) {
+            0 => { let k = r.below(e.len() as u64 + 1) as usize; e.truncate(k); }
+            1 => { for _ in 0..1 + r.below(3) { if !e.is_empty() { let k = r.below(e.len() as u64) as usize; e[k] ^= 1 << r.below(8); } } }
+            2 => { if !e.is_empty() { let k = r.below(e.len() as u64) as usize; e[k] = r.next_u64() as u8; } }
+            _ => { let k = r.below(e.len() as u64 + 1) as usize; e.insert(k, r.next_u64() as u8); }
+        }
+        run.eval();
+        run.count("corrupted");
+        let mut cur = e.clone();
+        for l in &c.layers {
+            let f = filter_of(l);
+            match guard(|| decode(&cur, &f)) {
+                Err(p) => {
+                    run.violation(&format!("C05|corrupt|{}|{}", KINDS[l.kind as usize], p.signature()), &p.describe(),
+                        json!({"filter": format!("{:?}", f), "input_hex": hex(&cur[..cur.len().min(300)])}));
+                    return;
+                }
+                Ok(Err(_)) => { run.count("corrupted->error"); return; }
+                Ok(Ok(v)) => cur = v,
+            }
+        }
+        run.count("corrupted->value");
+    });
+    // every prefix of small encodings, every filter
+    let datas: Vec<Vec<u8>> = vec![b"".to_vec(), b"a".to_vec(), b"hello hello hello".to_vec(), vec![0; 40], (0..=255u8).collect()];
+    for d in &datas {
+        for kind in 0..5u8 {
+            let mut s = Src::replay(&[]);
+            let l = Layer { kind, early: 1, predictor: 1, geo: Geometry { colors: 1, bpc: 8, columns: 1 }, explicit_params: false };
+            let enc = match kind { 0 => codec::hex_encode(d, &mut s), 1 => codec::a85_encode(d, &mut s), 2 => codec::rl_encode(d, &mut s), 3 => codec::lzw_encode(d, 1, &mut s), _ => codec::flate_encode(d, &mut s) };
+            for k in 0..=enc.len() {
+                run.eval();
+                let f = filter_of(&l);
+                if let Err(p) = guard(|| decode(&enc[..k], &f)) {
+                    run.violation(&format!("C05|corrupt|{}|{}", KINDS[kind as usize], p.signature()), &p.describe(), json!({"filter": KINDS[kind as usize], "prefix_len": k, "input_hex": hex(&enc[..k.min(300)])}));
+                }
+            }
+        }
+    }
+}
+
+fn exhaustive_part(run: &Run) {
+    // all hex digit pairs in both cases
+    let digits = b"0123456789abcdefABCDEF";
+    for &h in digits { for &l in digits {
+        run.eval();
+        let exp = (codec::hex_decode(&[h, l]).unwrap())[0];
+        let inp = [h, l, b'>'];
+        match guard(|| decode(&inp, &StreamFilter::ASCIIHexDecode)) {
+            Ok(Ok(v)) if v == [exp] => {}
+            Ok(r) => run.violation("C05|exh|hexpair|wrong-bytes", &format!("{:?} -> {:?}", show(&inp), r.map(|v| hex(&v)).map_err(|e| e.to_string())), json!({"input": show(&inp)})),
+            Err(p) => run.violation(&format!("C05|exh|hexpair|{}", p.signature()), &p.describe(), json!({"input": show(&inp)})),
+        }
+        run.nontrivial(fnv(&inp));
+    } }
+    run.exhaustive("all 22x22 hex digit pairs", true);
+    // all 256 run-length headers with full-length, one-short and empty payloads
+    for h in 0..=255u32 {
+        for variant in 0..3 {
+            let need = if h < 128 { h as usize + 1 } else if h > 128 { 1 } else { 0 };
+            let have = match variant { 0 => need, 1 => need.saturating_sub(1), _ => 0 };
+            let mut inp = vec![h as u8];
+            inp.extend((0..have).map(|i| (i * 7 + 3) as u8));
+            if variant == 0 { inp.push(128); }
+            run.eval();
+            run.nontrivial(fnv(&inp) ^ 0x52);
+            let r = guard(|| decode(&inp, &StreamFilter::RunLengthDecode));
+            match r {
+                Err(p) => run.violation(&format!("C05|exh|rl-header|{}|{}", if variant == 0 { "complete" } else { "truncated" }, p.signature()), &p.describe(), json!({"header": h, "payload_len": have})),
+                Ok(Ok(v)) if variant == 0 => {
+                    let exp = codec::rl_decode(&inp).unwrap();
+                    if v != exp { run.violation("C05|exh|rl-header|wrong-bytes", &format!("header {} -> {} bytes, expected {}", h, v.len(), exp.len()), json!({"header": h})); }
+                }
+                Ok(Err(e)) if variant == 0 => run.violation("C05|exh|rl-header|decode-error", &format!("header {}: {}", h, e), json!({"header": h})),
+                _ => {}
+            }
+        }
+    }
+    run.exhaustive("all 256 run-length headers x {complete, one byte short, empty}", true);
+    // all 2^24 Paeth triples through enc::unfilter
+    par_chunks(1 << 24, 1 << 16, |lo, hi| {
+        let mut bad: Option<(u8, u8, u8, u8)> = None;
+        for v in lo..hi {
+            let (a, b, c) = (v as u8, (v >> 8) as u8, (v >> 16) as u8);
+            let prev = [c, b];
+            let inp = [a.wrapping_sub(c), 0];
+            let mut out = [0u8; 2];
+            pdf::enc::unfilter(PredictorType::Paeth, 1, &prev, &inp, &mut out);
+            let ia = a as i32; let ib = b as i32; let ic = c as i32; let p = ia + ib - ic;
+            let (pa, pb, pc) = ((p - ia).abs(), (p - ib).abs(), (p - ic).abs());
+            let exp = if pa <= pb && pa <= pc { a } else if pb <= pc { b } else { c };
+            if out[0] != a || out[1] != exp { bad = Some((a, b, c, out[1])); }
+        }
+        run.evals(hi - lo);
+        if let Some((a, b, c, got)) = bad { run.violation("C05|exh|paeth|wrong-bytes", &format!("paeth({},{},{}) -> {}", a, b, c, got), json!({"a": a, "b": b, "c": c})); }
+    });
+    run.add("paeth_triples", 1 << 24);
+    run.exhaustive("all 2^24 (left, up, upper-left) Paeth triples", true);
+    // ASCII85 groups
+    let full = !run.quick();
+    let total: u64 = if full { 1 << 32 } else { 1 << 20 };
+    let stride: u64 = if full { 1 } else { 4099 }; // stratified: v = i*4099 + (i % 4099) mod 2^32 covers the range
+    par_chunks(total, 1 << 16, |lo, hi| {
+        let mut buf = Vec::with_capacity(((hi - lo) * 5 + 2) as usize);
+        let mut exp = Vec::with_capacity(((hi - lo) * 4) as usize);
+        for i in lo..hi {
+            let v = if full { i as u32 } else { (i.wrapping_mul(stride).wrapping_add(i >> 3)) as u32 ^ ((i as u32) << 12) };
+            exp.extend_from_slice(&v.to_be_bytes());
+            if v == 0 && i % 2 == 0 { buf.push(b'z'); } else { buf.extend_from_slice(&codec::a85_group(v)); }
+        }
+        buf.extend_from_slice(b"~>");
+        run.evals(hi - lo);
+        match guard(|| decode(&buf, &StreamFilter::ASCII85Decode)) {
+            Ok(Ok(v)) if v == exp => {}
+            Ok(Ok(v)) => {
+                let k = v.iter().zip(exp.iter()).position(|(a, b)| a != b).unwrap_or(v.len().min(exp.len())) / 4;
+                run.violation("C05|exh|a85-group|wrong-bytes", &format!("group #{} of batch starting at {}", k, lo), json!({"batch_lo": lo, "group_index": k}));
+            }
+            Ok(Err(e)) => run.violation("C05|exh|a85-group|decode-error", &format!("batch at {}: {}", lo, e), json!({"batch_lo": lo})),
+            Err(p) => run.violation(&format!("C05|exh|a85-group|{}", p.signature()), &p.describe(), json!({"batch_lo": lo})),
+        }
+    });
+    run.add("a85_groups", total);
+    run.exhaustive(if full { "all 2^32 ASCII85 5-character groups" } else { "2^20 stratified ASCII85 groups (all 2^32 in thorough tier)" }, full);
+    // all partial groups of 1 and 2 bytes (and 3 bytes in thorough)
+    let tails: u64 = if full { 256 + 65536 + (1 << 24) } else { 256 + 65536 };
+    par_chunks(tails, 1 << 12, |lo, hi| {
+        for i in lo..hi {
+            let data: Vec<u8> = if i < 256 { vec![i as u8] } else if i < 256 + 65536 { let v = i - 256; vec![(v >> 8) as u8, v as u8] } else { let v = i - 256 - 65536; vec![(v >> 16) as u8, (v >> 8) as u8, v as u8] };
+            let mut c = [0u8; 4]; c[..data.len()].copy_from_slice(&data);
+            let g = codec::a85_group(u32::from_be_bytes(c));
+            let mut inp = g[..data.len() + 1].to_vec(); inp.extend_from_slice(b"~>");
+            match guard(|| decode(&inp, &StreamFilter::ASCII85Decode)) {
+                Ok(Ok(v)) if v == data => {}
+                Ok(r) => run.violation(&format!("C05|exh|a85-tail{}|{}", data.len(), if r.is_ok() { "wrong-bytes" } else { "decode-error" }), &format!("{} -> {:?}", show(&inp), r.map(|v| hex(&v)).map_err(|e| e.to_string())), json!({"input": show(&inp)})),
+                Err(p) => run.violation(&format!("C05|exh|a85-tail|{}", p.signature()), &p.describe(), json!({"input": show(&inp)})),
+            }
+        }
+        run.evals(hi - lo);
+    });
+    run.exhaustive("all ASCII85 partial groups of 1-2 bytes (3 bytes: thorough)", full);
+}
+
+pub fn run(run: &Run) {
+    run.rule("random part: (data, chain of 1-3 filters from {ASCIIHex, ASCII85, RunLength, LZW early 0/1, Flate zlib/raw}, PNG/TIFF predictor with Colors 1-4, BPC {1,2,4,8,16}, Columns 1-70 on the innermost LZW/Flate layer) encoded by independent encoders with free spelling choices, decoded via enc::decode / Stream::data / a generated file; oracle = original bytes; failing cases are tape-shrunk and signed by minimal label set. exhaustive parts: hex digit pairs, run-length headers, 2^24 Paeth triples, ASCII85 groups/tails. corruption part: truncations and byte edits must give value or Err. distinct_nontrivial = distinct (encoded bytes, label set) pairs");
+    run.assume("reference encoders (harness/src/refimpl/codec.rs) emit spec-conformant data; checked against own decoders + miniz_oxide on every case (self_check)");
+    exhaustive_part(run);
+    random_part(run);
+    corruption_part(run);
+}
